@@ -18,6 +18,7 @@ type Clause struct {
 	Text string
 	Ord  int
 	Name string // optional label
+	Case int    // >0: clause applies to that spec case only
 	File string
 	Line int
 }
@@ -299,7 +300,15 @@ func (e *Engine) loadContractFile(path, pkgShort string) error {
 			if err != nil {
 				return fmt.Errorf("%s:%d: invariant: %v\n   in: %s", path, l.line, err, m[3])
 			}
-			cur.Loops[n] = append(cur.Loops[n], &Clause{Tags: parseTags(m[2]), E: ex, Text: m[3], Ord: len(cur.Loops[n]) + 1, File: path, Line: l.line})
+			lc := &Clause{E: ex, Text: m[3], Ord: len(cur.Loops[n]) + 1, File: path, Line: l.line}
+			for _, tg := range parseTags(m[2]) {
+				if strings.HasPrefix(tg, "case") {
+					lc.Case, _ = strconv.Atoi(tg[4:])
+				} else {
+					lc.Tags = append(lc.Tags, tg)
+				}
+			}
+			cur.Loops[n] = append(cur.Loops[n], lc)
 		default:
 			m := clauseRe.FindStringSubmatch(t)
 			if m == nil {
